@@ -893,6 +893,10 @@ def run_gone(case: Dict[str, Any]) -> CaseInfo:
     except Hang:
         raise Violation("wsgi_waits_after_disconnect", f"after http.disconnect (body pieces "
                         f"{case['pieces']}) the wrapper went on waiting for request messages")
+    except Violation:
+        raise
+    except Exception as e:  # a plain scope, a plain application: the wrapper has no reason
+        raise Violation("wsgi_wrapper_raised", f"{e!r} (body pieces {case['pieces']})")
     # (whether the application is still called, with what had arrived, is left open: the
     # statement speaks of requests, and PEP 3333 does not know aborted ones - hypercorn calls it)
     if len(calls) > 1:
